@@ -54,7 +54,9 @@ func (e *Engine) buildModsets() {
 	e.modsets = map[string]*modset{}
 	for k, fd := range e.funcs {
 		ms := newModset()
+		e.scanningKey = k
 		e.scanMods(fd.Body, ms)
+		e.scanningKey = ""
 		for ck := range ms.cells {
 			ms.fields[ck] = ms.ctypes[ck]
 		}
@@ -273,7 +275,8 @@ func (e *Engine) recordCall(call *ast.CallExpr, ms *modset) {
 			if k, ok := e.fobjs[o]; ok {
 				ms.calls[k] = true
 				ms.sites = append(ms.sites, callSite{key: k, args: call.Args})
-				if con := e.spec.Contracts[k]; con != nil && con.Traced {
+				// (a function's calls of itself are not recorded in its own trace)
+				if con := e.spec.Contracts[k]; con != nil && con.Traced && k != e.scanningKey {
 					ms.traces[k] = true
 				}
 			}
@@ -314,7 +317,7 @@ func (e *Engine) recordCall(call *ast.CallExpr, ms *modset) {
 				if k, ok := e.fobjs[fn]; ok {
 					ms.calls[k] = true
 					ms.sites = append(ms.sites, callSite{key: k, recv: f.X, args: call.Args})
-					if con := e.spec.Contracts[k]; con != nil && con.Traced {
+					if con := e.spec.Contracts[k]; con != nil && con.Traced && k != e.scanningKey {
 						ms.traces[k] = true
 					}
 					// pointer-receiver method on an addressable struct local:
